@@ -492,6 +492,31 @@ def run_faults(cfg, out, props=None, tag="C05", profiles_pool=None, extra=None):
                     run.c.inc("huge_message_scenarios")
                 c.updates_per_step = ups
                 w.step(30)
+            # --- a stalled link that flushes: for 2.6 s nothing gets through in one direction (a wifi hand-over, a full modem buffer), then
+            #     everything held arrives at once and in order - well over a hundred authentic datagrams within one tick - while a
+            #     guaranteed message of some 170 fragments is on its way
+            if run.open(c) and (not conf or conf[1] >= 1.0) and (case + cfg["shard"]) % 2 == 1:
+                side = r.choice(["client", "client", "server"])
+                ep = c if side == "client" else run.sconn(c)
+                fwd = "c2s" if side == "client" else "s2c"
+                if ep is not None:
+                    w.net.heal(0.004)
+                    t_rel = w.clock.now + 2.6
+                    held_n = [0]
+
+                    def stall(direction, addr, d, info, _fwd=fwd, _t=t_rel, _a=c.addr):
+                        if direction == _fwd and addr == _a and w.clock.now < _t:
+                            held_n[0] += 1
+                            return [max(0.004, _t - w.clock.now) + held_n[0] * 1e-6]
+                        return None
+                    w.net.filters.append(stall)
+                    rec = run.app.send(ep, side, 170 * P.MAX_FRAGMENT_SIZE + 33, -1, api=r.choice(["send", "send_guaranteed"]), with_cb=True)
+                    w.step(int(2.7 / w.dt))
+                    w.net.filters.remove(stall)
+                    w.run_until(lambda ww: bool(rec["cb"]), int(12.0 / w.dt))
+                    run.c.inc("stall_and_flush_phases")
+                    run.c.inc("stall_and_flush_datagrams_released_at_once", held_n[0])
+                    w.step(30)
             # --- the same content again and again: an application that sends identical payloads ("ready", b"", a heartbeat) as separate
             #     guaranteed messages over a link whose round trip exceeds the resend interval; every send() is a message of its own
             if run.open(c):
